@@ -341,7 +341,10 @@ def mon_c02(hs, prev, op, ok, trace, cur, known):
             wd = {x[0]: x[1] for x in prev.all('wdaddr')}
             # an increase is possible only when the hub's staking rewards are paid to the hub itself
             # (withdraw address not yet set to the dispatcher: outside E4); a decrease never is
-            if b < a or (b > a and wd.get('hub') == 'disp'):
+            dcfg = prev.one('dp.cfg')
+            keeper_is_hub = dcfg is not None and dcfg[5] == 'hub'
+            # ... or when the owner made the hub itself the fee keeper
+            if b < a or (b > a and wd.get('hub') == 'disp' and not keeper_is_hub):
                 return ('violation', 'hub liquid balance changed from %d to %d in %r' % (a, b, op))
     return None
 
@@ -938,6 +941,8 @@ def mon_c19(hs, prev, op, ok, trace, cur, known):
     n = int(dc[9])
     if not {'usei', dc[4]} <= set(dc[10:10 + n]) or dc[7] != 'swap' or dc[8] != 'oracle':
         return None
+    if dc[5] in ('hub', 'disp', 'reward', 'swap'):
+        return None   # the fee keeper is one of the protocol accounts: outside the trusted configuration (E4)
     ps = stored(prev)
     rv = prev.one('rg.vals')
     if not rv or rv[0] == 'err' or not all(re.match(r'val[0-7]:', x) for x in rv):
